@@ -36,6 +36,9 @@ CHECKS = {
  "C13": ("exploration", "M-alloc (counting global allocator, per-thread peak/largest request) + send/receive counters from the transport log over the C01 hostile workloads biased to extreme length/count fields",
          "Same entry points and mutators as C01, biased towards extreme values in length/count/size/index positions (binary extremes, extreme decimal strings, VarInt inflation, fragment-header values). Per query: peak live <= 64 MiB, largest single request <= 16 MiB, sends <= request units x (retries+1) + datagrams received. The evidence lists the maxima observed per protocol family with their witnesses.",
          "Allocation is measured on the query thread relative to the start of the query; requests above 1 GiB are refused by the harness allocator (the worker aborts and the supervisor attributes the case).", "4 C13"),
+ "C08": ("exploration", "schedule enumeration: all n! arrival orders (n<=5, sampled at 6) and every single-fragment duplication, each executed on the real query and compared with in-order delivery",
+         "For Valve Source/GoldSrc/bzip2 splits (info, players, rules), GameSpy 1 parts, GameSpy 3 packets and Unreal 2 rules/players lists with 2..6 fragments: every permutation (exhaustive for n<=5) must give the in-order result, every duplication Err or the in-order result. Unreal 2 is compared exactly and as multisets so that pure ordering differences (known findings: the protocol has no fragment index) are told apart from loss or duplication.",
+         "The permuted section is the last one requested so that left-over datagrams cannot answer a later request; server models as in C02/C04/C06.", "4 C08"),
 }
 NOT_YET = {}
 for i in range(1, 21):
